@@ -28,7 +28,7 @@ CHUNK = 100
 STATE_TIMEOUT = 60.0
 
 PRIM = ("sphere", "capsule", "box", "ellipsoid", "cylinder")
-PLS = [0, 4, 5, 6, 13, 14, 15, 7, 8, 9, 11, 12]   # placements with a chance of certified truth
+PLS = [0, 5, 14, 15, 7, 8, 9, 11, 12]   # placements with a chance of certified truth (gaps 0.02, 0.1, 300 are exercised by C01; thorough adds them)
 
 
 def warmup():
@@ -51,10 +51,10 @@ def enumerate_states(tier, seed):
     states = []
     for ta, tb in itertools.product(sc.TYPES, sc.TYPES):
         for d in gs.enumerate_pair(ta, tb, 2):
-            if d["pl"] in PLS:
+            if d["pl"] in PLS or (tier == "thorough" and d["pl"] in (4, 6, 13)):
                 states.append(d)
     meta = {"bound_completed": "deviation bound 2 over 9 scene coordinates, all 100 ordered type pairs, placements with "
-                               "certifiable truth (12 of 16)", "exhaustive": True}
+                               "certifiable truth (9 of 16 in quick, 12 in thorough)", "exhaustive": True}
     # small-scale overlapping family (sizes ~1e-2, certified depth >= delta): absolute tolerances inside the tests bite here
     small = []
     for ta, tb in itertools.product(sc.TYPES, sc.TYPES):
@@ -65,6 +65,35 @@ def enumerate_states(tier, seed):
             small.append(d)
     states += small
     meta["bound_completed"] += " + small-scale overlapping family (%d scenes)" % len(small)
+    # large-scale family (sizes ~1e2): overlapping and separated along the coordinate axes (first support point far from the origin)
+    large = []
+    axes = [i for i, d in enumerate(sc.DIRS) if np.sum(np.abs(d) > 1e-12) == 1]
+    for ta, tb in itertools.product(sc.TYPES, sc.TYPES):
+        for pl, u in itertools.product((7, 8, 9, 5, 15), axes + [0]):
+            d = {"ta": ta, "tb": tb}
+            d.update({n: 0 for n in gs.COORDS})
+            d.update(sa=2, sb=2, pl=pl, u=u)
+            large.append(d)
+        # the largest shapes of the domain (radii 1e2) overlapping with their anchors up to 0.3*depth apart and 'deep'
+        zx = [i for i, R in enumerate(sc.CUBE_ROTS) if np.allclose(R[:, 2], [1, 0, 0])][0]   # long axis along world x
+        for pl, u, (oa, ob) in itertools.product((7, 9, 10), axes + [0, 28], ((0, 0), (zx, zx), (24, 26), (zx, 0))):
+            d = {"ta": ta, "tb": tb}
+            d.update({n: 0 for n in gs.COORDS})
+            d.update(sa=sc.MAXSIZE[ta], sb=sc.MAXSIZE[tb], pl=pl, u=u, oa=oa, ob=ob)
+            large.append(d)
+    states += large
+    meta["bound_completed"] += " + large-scale family (%d scenes)" % len(large)
+    # dense family for the type-coded Nesterov-primitives kernel (its own simplex projection code): 25 pairs x 16x16 orientations
+    dense = []
+    oris = [0, 3, 5, 9, 13, 17, 21, 24, 25, 26, 27, 28, 29, 30, 31, 11]
+    for ta, tb in itertools.product(PRIM, PRIM):
+        for oa, ob, pl, u in itertools.product(oris, oris, (0, 13, 9, 16, 17, 18), (0, 28, 29)):
+            d = {"ta": ta, "tb": tb, "only": "primitives"}
+            d.update({n: 0 for n in gs.COORDS})
+            d.update(oa=oa, ob=ob, pl=pl, u=u)
+            dense.append(d)
+    states += dense
+    meta["bound_completed"] += " + dense Nesterov-primitives family (%d scenes)" % len(dense)
     if tier == "thorough":
         from . import c01
         extra = [d for d in c01.enumerate_dev3(seed, full=True) if d["pl"] in PLS]
@@ -107,7 +136,9 @@ def run_state(desc):
     tr = s["truth"]
     L = tr["L"]
     delta = 1e-3 * L
-    if tr["overlap"]:
+    if tr["overlap"] is None:
+        judged, expect = False, None
+    elif tr["overlap"]:
         judged = tr["depth"] >= delta and tr["depthA"] >= delta and tr["depthB"] >= delta
         expect = True
     else:
@@ -119,7 +150,10 @@ def run_state(desc):
     if not judged:
         return {"viol": [], "n_eval": 0, "n_trans": 0, "traces": 0, "hist": {"judged": {"unjudged_grazing_or_flat": 1}}}
     hist["judged"] = {"overlap" if expect else "separated": 1}
-    for name, fn in tests_for(desc):
+    tests = tests_for(desc)
+    if desc.get("only") == "primitives":
+        tests = [x for x in tests if "primitives" in x[0]]
+    for name, fn in tests:
         ctr = instr.instrument([s["A"], s["B"]], budget=4000)
         n_eval += 1
         try:
